@@ -151,6 +151,18 @@ PROPS = {
              "Accepted: fully defined result or clean (ordinary) panic; violation: marked spy/hook panic, poison value, abort, "
              "sanitizer report. distinct = (function, cell, path, len, window, min_periods, length difference of the second series)",
     ),
+    "C11": dict(
+        bin="c11",
+        quick=NATIVE_Q, thorough=NATIVE_T,
+        floors={"ok.vkurt": 200, "null.vkurt": 50, "ok.vcorr_pearson": 200, "ok.vargmax": 200, "ok.n_vsum_filter.sum": 100, "ok.argmin": 50,
+                "ok.vany": 100, "permutation_ok": 500, "null.vvar": 20},
+        rule="len 0..N x 10 null patterns x min_periods 0..6 (sweep, all degenerate sizes n=0..4) + random len<=200, 14 value classes "
+             "(heavy ties, constants, floats); sources: owned Vec, titer(), opt() view, VecDeque, Array1, Option / integer element types; "
+             "33 aggregation entry points judged against definitions evaluated on the non-null elements (exact for counts / first / "
+             "last / any / all / extrema / arg-extrema, DESIGN 5.1 bound for moments), null iff fewer than the required observations; "
+             "masked sums / means; permutation invariance of the symmetric ones. distinct = (function, source, len, min_periods) with a "
+             "non-null result",
+    ),
 }
 
 for _k in list(PROPS):
